@@ -1,4 +1,4 @@
-import ZbossModel.Proofs.HostSched
+import ZbossModel.Proofs.HostBound
 /-! # C14 - blocking requests are mutually exclusive and served first-come first-served -/
 namespace Zboss.Host
 
@@ -54,6 +54,35 @@ theorem C14_exclusive_any_schedule (hist : List Out) (st : St) (h : MReach hist 
   have a2 := (hinv.2 r2 h2).1 .B ((hinv.2 r2 h2).2.2.2 b2 p2)
   rw [a1] at a2
   exact unique_of_id _ hinv.1 r1 r2 h1 h2 (by simpa using a2)
+
+/-- **requests not marked blocking never queue for the blocking lock - every history** -/
+theorem C14_nonblocking_never_queues (evs : List Ev) (r : Req) (hr : r ∈ (runEvents {} evs).1.reqs)
+    (hnb : r.blocking = false) : r.id ∉ (runEvents {} evs).1.bq := by
+  intro hm
+  have hg := good_reachable evs
+  obtain ⟨r', hr', hid, _, hd⟩ := hg.live.qi .B r.id hm
+  have : r' = r := unique_of_id _ hg.inv.1 r' r hr' hr hid
+  subst this
+  rcases hd with ⟨_, hb⟩ | ⟨_, hb, _⟩
+  · rw [hb rfl] at hnb; cases hnb
+  · rw [hb] at hnb; cases hnb
+
+/-- … and so they are never parked behind a blocking request: what a non-blocking request can wait for is the message
+    lock, the transmit lock, its acknowledgement and its own response -/
+theorem C14_nonblocking_waits_only_for_the_link (evs : List Ev) (r : Req) (hr : r ∈ (runEvents {} evs).1.reqs)
+    (hnb : r.blocking = false) (hp : r.phase ≠ .done) (hq : r.id ∉ (runEvents {} evs).1.ready) :
+    (r.phase = .waitM ∧ r.id ∈ (runEvents {} evs).1.mq) ∨ (r.phase = .waitT ∧ r.id ∈ (runEvents {} evs).1.tq) ∨
+    r.phase = .waitAck ∨ (r.phase = .waitRsp ∧ r.got = .nothing) := by
+  have hg := good_reachable evs
+  rcases hg.live.wake r hr hp (by simp) with hw | hw
+  · exact absurd hw hq
+  · rcases hw with ⟨l, h1, h2, _⟩ | hw | hw
+    · cases l with
+      | B => exact absurd h2 (C14_nonblocking_never_queues evs r hr hnb)
+      | M => exact Or.inl ⟨h1, h2⟩
+      | T => exact Or.inr (Or.inl ⟨h1, h2⟩)
+    · exact Or.inr (Or.inr (Or.inl hw))
+    · exact Or.inr (Or.inr (Or.inr hw))
 
 /-! ## non-vacuity: blocking 1 awaits its response, blocking 2 stays queued, non-blocking 3 is written at once -/
 example : ((runEvents {} [.start 1 1 true 1 3013, .rxAck 0, .start 2 2 true 1 5026, .start 3 3 false 1 7039]).2.map
